@@ -66,7 +66,7 @@ def gen_stmts(draw, ind, name, params, feats):
     out = []
     n = draw(st.integers(0, 5))
     for _ in range(n):
-        k = draw(st.integers(0, 13))
+        k = draw(st.integers(0, 16))
         if k == 0:
             out.append(ind + "r = r + %s * 2" % x)
         elif k == 1:
@@ -103,8 +103,20 @@ def gen_stmts(draw, ind, name, params, feats):
         elif k == 12:
             out += [ind + "r = r + len([", ind + ind + "1,", ind + ind + "2,", ind + "])"]
             feats.add("multiline")
-        else:
+        elif k == 13:
             out.append(ind + "r = r + h(%s)" % x)
+        elif k == 14:
+            out += [ind + "@_ident", ind + "def dec_inner(z):", ind + ind + "return z + 3", ind + "r = dec_inner(r)"]
+            feats.add("nested"); feats.add("decorator")
+        elif k == 15:
+            out += [ind + "class B:", ind + ind + "@property", ind + ind + "def p(self):", ind + ind + ind + "return 11",
+                    ind + ind + "@staticmethod", ind + ind + "def s(z):", ind + ind + ind + "return z * 2",
+                    ind + "r = B().p + B.s(r)"]
+            feats.add("nested"); feats.add("decorator")
+        else:
+            out += [ind + "@_identf(1,", ind + "         2)", ind + "def dec2(z):", ind + ind + "return z - 1",
+                    ind + "r = dec2(r)"]
+            feats.add("nested"); feats.add("decorator")
     return out
 
 
@@ -315,6 +327,8 @@ def run_case(case):
         out.info["gen_error"] = repr(exc)
         return out
     m = mx.new_model("F")
+    m._ident = _ident           # decorators of nested definitions resolve like any other global name
+    m._identf = _identf
     s = m.new_space("S")
     s.k = GLOBALS["k"]
     s.new_cells("h", "lambda x: x * 10 + 1")
